@@ -159,11 +159,26 @@ class Run:
         return cond
 
 
+class SetupViolation(Exception):
+    """The fault-free set-up phase of a world failed in a way only the library under test can be responsible for
+    (a canned valid handshake did not open the connection, a session could not join over a healthy transport...).
+    Reported as a violation of the property's clause '<PROP>.setup', not as a harness error."""
+
+    def __init__(self, sig, detail=""):
+        Exception.__init__(self, "%s: %s" % (sig, detail))
+        self.sig = sig
+        self.detail = detail
+
+
 def run_world(world, max_steps):
     """Generic step loop: build, steps (choose one enabled action, run it, check step
     invariants), drain, final oracles.  Returns nothing; results are on world.run."""
     run = world.run
-    world.build()
+    try:
+        world.build()
+    except SetupViolation as e:
+        run.violate("%s.setup" % getattr(world, "PROP", "C00"), e.sig, e.detail, fatal=True)
+        return
     while run.steps < max_steps and not run.fatal:
         acts = world.actions()
         if not acts:
